@@ -438,8 +438,8 @@ def minimise_api(prop, f, tier):
     rp = {"property": prop, "kind": "apisim", "cls": cls, "msg": msg[0] if msg else "", "expected_hash": h, "workload": ap.w.to_json(),
           "script": ["\t".join(o) for o in sc], "seed": seed, "faults": faults, "ops_before": len(script), "ops_after": len(sc),
           "how": "./check C21 --replay <this file>"}
-    outdir = os.path.join(VERIF, "findings", prop)
-    os.makedirs(outdir, exist_ok=True)
+    from .common import findings_dir
+    outdir = findings_dir(prop)
     path = os.path.join(outdir, "apisim_%s.replay.json" % hashlib.sha1((ap.w.wid + str(seed)).encode()).hexdigest()[:10])
     with open(path, "w") as fo:
         json.dump(rp, fo, indent=1)
